@@ -205,6 +205,10 @@ def classify_generics_source(cx, fw, src):
                         if fev is not None:
                             bt = tm.term(analyse_iter(fev.entry['iter']).base, fev.scope)
                             okv = is_bound_result(tm, bt)
+                            if not okv:
+                                # iterating the result of the bound computation directly (`for p in bound.into_where_predicates..(..)`)
+                                it_ = strip_refs(fev.entry['iter'])
+                                okv = it_['k'] == 'MethodCall' and it_['method'] == BOUND_FN
                     if not okv:
                         return ('bad', 'a predicate that does not come from Bound::%s is pushed into the where-clause (%s)' % (BOUND_FN, term_s(vt)))
                     # the copy must be made afresh for every impl: a push inside a loop (over targets / variants) that the copy was
